@@ -9,6 +9,7 @@ the statement).  One declarative script is compiled into a falcon.App and a
 falcon.asgi.App; fault placements are switched per request without rebuilding the app.
 """
 
+import asyncio
 import functools
 import inspect
 import itertools
@@ -20,6 +21,9 @@ import types
 # check.py's parent imports this module first, so the shard children inherit it.
 if 'falcon' not in sys.modules:
     os.environ.setdefault('FALCON_CUSTOM_HTTP_METHODS', 'FOO,BAR')
+# falcon's own test-suite switch: with it set, falcon treats every non-coroutine-function hook/middleware method
+# as a blocking sync function (and would not await what it returns); the property is judged in production mode.
+os.environ.pop('FALCON_ASGI_WRAP_NON_COROUTINES', None)
 
 import falcon  # noqa: E402
 import falcon.asgi  # noqa: E402
@@ -156,7 +160,7 @@ class _AsyncCallable:
         await self._impl(scope, event)
 
 
-LFORMS = ('method', 'static', 'classmethod', 'instance', 'object')
+LFORMS = ('method', 'static', 'classmethod', 'instance', 'object', 'future', 'awaitable')
 
 
 class ObjectDecorator:
@@ -229,6 +233,10 @@ def build_component(ctx, i, comp, stack, lctx=None):
                 inst_attrs[name] = impl                       # plain coroutine function stored on the instance
             elif lform == 'object':
                 inst_attrs[name] = _AsyncCallable(impl)       # callable object
+            elif lform == 'future':                           # plain method handing back a Task
+                ns[name] = lambda self, scope, event: asyncio.ensure_future(impl(scope, event))
+            elif lform == 'awaitable':                        # plain method handing back an __await__ object
+                ns[name] = lambda self, scope, event: _Awaitable(impl(scope, event))
             else:
                 raise AssertionError(lform)
 
@@ -271,6 +279,54 @@ def usable_on(script, stack):
     return True
 
 
+class _Awaitable:
+    """An awaitable that is neither a coroutine object nor a Future."""
+
+    def __init__(self, coro):
+        self._coro = coro
+
+    def __await__(self):
+        return self._coro.__await__()
+
+
+def shape_hook(impl, form, is_async):
+    """Provide the hook action `impl` (a plain function doing the work) as the kind of callable `form` names.
+    WSGI: a callable.  ASGI: a callable returning an awaitable (falcon.hooks.AsyncBeforeFn/AsyncAfterFn)."""
+    if not is_async:
+        if form == 'object':
+            return type('HookObject', (), {'__call__': lambda self, *a, **kw: impl(*a, **kw)})()
+        if form == 'partial':
+            return functools.partial(impl)
+        if form == 'method':
+            return type('HookHolder', (), {'hook': lambda self, *a, **kw: impl(*a, **kw)})().hook
+        return impl
+
+    async def coro(*a, **kw):
+        impl(*a, **kw)
+
+    if form == 'function':
+        return coro
+    if form == 'object':
+        async def call(self, *a, **kw):
+            impl(*a, **kw)
+        return type('AsyncHookObject', (), {'__call__': call})()
+    if form == 'partial':
+        return functools.partial(coro)
+    if form == 'method':
+        async def hook(self, *a, **kw):
+            impl(*a, **kw)
+        return type('AsyncHookHolder', (), {'hook': hook})().hook
+    if form == 'sync_returns_coro':
+        return lambda *a, **kw: coro(*a, **kw)
+    if form == 'future':
+        return lambda *a, **kw: asyncio.ensure_future(coro(*a, **kw))
+    if form == 'gather':
+        return lambda *a, **kw: asyncio.gather(coro(*a, **kw))
+    if form == 'awaitable':
+        return lambda *a, **kw: _Awaitable(coro(*a, **kw))
+    raise AssertionError(form)
+
+
 def build_resource(ctx, script, stack):
     is_async = stack == 'asgi'
 
@@ -286,25 +342,17 @@ def build_resource(ctx, script, stack):
         on_x.__name__ = name
         return on_x
 
-    if is_async:
-        async def before_hook(req, resp, resource, params, hid):
-            ctx.trace.append(('before', hid, ctx.tag(resource)))
-            ctx.act('B%d' % hid, 'before', resp)
+    def before_impl(req, resp, resource, params, hid):
+        ctx.trace.append(('before', hid, ctx.tag(resource)))
+        ctx.act('B%d' % hid, 'before', resp)
 
-        async def after_hook(req, resp, resource, hid):
-            ctx.trace.append(('after', hid, ctx.tag(resource)))
-            ctx.act('A%d' % hid, 'after', resp)
-    else:
-        def before_hook(req, resp, resource, params, hid):
-            ctx.trace.append(('before', hid, ctx.tag(resource)))
-            ctx.act('B%d' % hid, 'before', resp)
-
-        def after_hook(req, resp, resource, hid):
-            ctx.trace.append(('after', hid, ctx.tag(resource)))
-            ctx.act('A%d' % hid, 'after', resp)
+    def after_impl(req, resp, resource, hid):
+        ctx.trace.append(('after', hid, ctx.tag(resource)))
+        ctx.act('A%d' % hid, 'after', resp)
 
     def deco(kind, hid):
-        return falcon.before(before_hook, hid) if kind == 'before' else falcon.after(after_hook, hid)
+        action = shape_hook(before_impl if kind == 'before' else after_impl, M.hook_form(script, stack, hid), is_async)
+        return falcon.before(action, hid) if kind == 'before' else falcon.after(action, hid)
 
     fns = {name: responder(name) for name in M.all_responders()}
     for kind, hid in reversed(list(script.get('hooks_method', ()))):      # innermost applied first
@@ -507,7 +555,8 @@ def script_key(script):
             tuple(map(tuple, script.get('hooks_class', ()))), tuple(map(tuple, script.get('hooks_method', ()))),
             tuple(sorted(script.get('inherit', ()))), tuple(map(tuple, script.get('hooks_base', ()))),
             script.get('ctor'), script.get('add_single'), script.get('add_after_requests'),
-            tuple(sorted((script.get('forms') or {}).items())), script.get('mw_arg'), script.get('cors'))
+            tuple(sorted((script.get('forms') or {}).items())), script.get('mw_arg'), script.get('cors'),
+            tuple(sorted((script.get('hook_forms') or {}).items())))
 
 
 def case_key(skey, case):
@@ -595,6 +644,19 @@ EXH_HOOKS = {'hooks_class': [['before', 0], ['after', 3]], 'hooks_method': [['af
              # every third responder (own and inherited ones) carries a third-party style decorator
              'forms': dict([(nm, 'object') for nm in M.all_responders()[1::3]] +
                            [(nm, 'wrapped') for nm in M.all_responders()[5::6]])}
+EXH_HOOK_FORMS = (
+    {},                                                                       # plain (coroutine) functions
+    {'0': 'future', '3': 'awaitable', '1': 'gather', '2': 'sync_returns_coro'},
+    {'0': 'object', '3': 'method', '1': 'partial', '2': 'future'},
+    {'0': 'awaitable', '3': 'future', '1': 'object', '2': 'gather'},
+    {'0': 'method', '3': 'partial', '1': 'sync_returns_coro', '2': 'awaitable'},
+    {'0': 'gather', '3': 'object', '1': 'method', '2': 'partial'},
+    {'0': 'sync_returns_coro', '3': 'gather', '1': 'future', '2': 'object'},
+    {'0': 'partial', '3': 'sync_returns_coro', '1': 'awaitable', '2': 'method'},
+)
+HOOK_FORMS = M.SYNC_HOOK_FORMS + M.ASYNC_ONLY_HOOK_FORMS
+
+
 def method_kinds():
     ms = M.HTTP_EXTRA + M.WEBDAV + (M.CUSTOM if CUSTOM_OK else ())
     return ['m:' + m for m in ms] + ['ms:' + m for m in M.SUFFIXED_EXTRA if m in ms]
@@ -620,11 +682,13 @@ def exhaustive_plan(tier):
 def exhaustive(rec):
     idx = 0
     for maxcomp, plan in exhaustive_plan(rec.tier):
-        for comps in shapes(maxcomp):
+        for si, comps in enumerate(shapes(maxcomp)):
             if maxcomp == 3 and len(comps) < 3:
                 continue        # already covered by the 2-component plan
             for independent in (True, False):
-                script = dict(EXH_HOOKS, independent=independent, comps=comps)
+                # the way the four hook actions are provided rotates over the stacks (independent of the shard)
+                script = dict(EXH_HOOKS, independent=independent, comps=comps,
+                              hook_forms=EXH_HOOK_FORMS[(si // 2 + independent) % len(EXH_HOOK_FORMS)])
                 idx += 1
                 if idx % rec.nshards != rec.shard:
                     continue
@@ -675,8 +739,8 @@ def exhaustive(rec):
             rec.note('exhaustive: all stacks of <= %d components x every non-empty subset of the 3 methods x both '
                      'independent_middleware values x both stacks x every fault placement per request kind '
                      '(max faults, reduced action set from) = %r (fixed hook stack: class before, after; method '
-                     'after, before on on_get; on_get, on_get_items and every second other responder inherited from an '
-                     'undecorated base class)'
+                     'after, before on on_get, the callable form of each hook action rotating over the stacks; on_get, '
+                     'on_get_items and every second other responder inherited from an undecorated base class)'
                      % (maxcomp, plan))
     rec.exhaustive = True
 
@@ -710,7 +774,9 @@ def random_script(rng):
             forms[nm] = 'object' if r < 0.2 else 'wrapped'
     script = {'independent': rng.random() < 0.5, 'comps': comps, 'hooks_class': hooks_class,
               'hooks_method': hooks_method, 'inherit': inherit, 'hooks_base': hooks_base, 'forms': forms,
-              'mw_arg': rng.choice(['list', 'list', 'tuple', 'iter', 'bare']), 'cors': rng.random() < 0.25}
+              'mw_arg': rng.choice(['list', 'list', 'tuple', 'iter', 'bare']), 'cors': rng.random() < 0.25,
+              'hook_forms': {str(h): rng.choice(HOOK_FORMS) for _, h in hooks_class + hooks_method + hooks_base
+                             if rng.random() < 0.7}}
     if n and rng.random() < 0.3:
         script['ctor'] = rng.randrange(0, n)
         script['add_single'] = rng.random() < 0.5
@@ -963,6 +1029,9 @@ def set_floors(rec):
                   'inherit.base_hook', 'own.class_hook', 'form.object', 'form.wrapped', 'form.object.classhook',
                   'form.wrapped.classhook', 'form.object.classhook.inherited'):
             rec.floor('cls.%s.%s' % (stack, c), 20)
+        for hf in (M.SYNC_HOOK_FORMS if stack == 'wsgi' else HOOK_FORMS):
+            for ba in ('before', 'after'):
+                rec.floor('cls.%s.hookform.%s.%s' % (stack, hf, ba), 20)
         for k in ('route', 'field', 'suffix', 'options', 'nomethod', 'falsy', 'sink', 'unrouted'):
             rec.floor('kind.%s.%s' % (stack, k), 50)
         for k in method_kinds():
@@ -1001,7 +1070,9 @@ def run(rec):
     rec.assumptions = ['reference interpreter vlib/models/c03_stack.py reads docs/api/middleware.rst correctly',
                        'error handlers raise only HTTPError/HTTPStatus (what the documentation allows)',
                        'resp.complete set inside a before hook is not exercised (undocumented)',
-                       'ASGI hooks and handlers are coroutine functions',
+                       'ASGI error handlers and sinks are coroutine functions; hook actions and lifespan handlers are '
+                       'any callable returning an awaitable',
+                       'FALCON_ASGI_WRAP_NON_COROUTINES (falcon test-suite switch) is removed from the environment',
                        'the position of the implicit CORSMiddleware (cors_enable) relative to user components is '
                        'undocumented and not judged; only the user components\' own call sequence is']
     set_floors(rec)
